@@ -218,7 +218,17 @@ func runConc(in *bufio.Scanner, w *bufio.Writer) {
 				}
 			}
 			close(stop)
-			wg.Wait()
+			// a requester stuck in a service call (or a frame loop that never returns) must not hang the check
+			waited := make(chan struct{})
+			go func() { wg.Wait(); close(waited) }()
+			select {
+			case <-waited:
+			case <-time.After(20 * time.Second):
+				fmt.Fprintf(w, "< conn%s\n", conns)
+				fmt.Fprintln(w, "< stalled service-request-never-returned")
+				w.Flush()
+				os.Exit(0)
+			}
 			processed := int64(0)
 			if processor != nil {
 				processed = int64(processor.CurrentFrame)
